@@ -87,22 +87,75 @@ Theorem c03_settled_when_drain_ends : forall pre e post s t orig new s1 x d,
 Proof. exact c03_settled_lem. Qed.
 Print Assumptions c03_settled_when_drain_ends.
 
-(** Grace: if the event e turns request r from not cancelled to cancelled, then e
-    is the "cancel the rest" of a Drain of some target t by goroutine g, r is in
-    the snapshot of that Drain and still in flight on t, and g noticed its
-    deadline before, at a time >= (time of its KDrainBegin) + drain timeout. *)
+(** Grace: if the event e turns request r from not cancelled to cancelled, then EITHER
+    ([cut_at_deadline]) e is the "cancel the rest" of a Drain of some target t by goroutine g,
+    r is in the snapshot of that Drain and still in flight on t, and g noticed its deadline
+    before, at a time >= (time of its KDrainBegin) + drain timeout:
+      exists t p1 eb mid orig timeout es rs ed,
+        e_k e = KDrainCancelRest t /\ pre = p1 ++ eb :: mid /\
+        e_k eb = KDrainBegin t orig timeout /\ goid (e_by eb) = goid (e_by e) /\
+        In es mid /\ e_k es = KDrainSnapshot t rs /\ goid (e_by es) = goid (e_by e) /\ In r (map fst rs) /\
+        In ed mid /\ e_k ed = KDrainDeadline t /\ goid (e_by ed) = goid (e_by e) /\
+        e_t eb + timeout <= e_t ed /\ e_t ed <= e_t e /\ open_in pre t r
+    OR ([cut_as_upgraded]) e is the snapshot of a Drain of t that lists r as upgraded, r is in
+    flight on t and its target has answered 101 (an upgraded connection: cut as soon as draining begins):
+      exists t rs, e_k e = KDrainSnapshot t rs /\ In (r, true) rs /\ open_in pre t r /\
+                   phase_of s1 r = Some (PReplied t 101). *)
 Theorem c03_grace : forall pre e post s s1 s2 r,
   run step init (pre ++ e :: post) = Some s ->
   run step init pre = Some s1 -> step s1 e = Some s2 ->
   cancelled s1 r = false -> cancelled s2 r = true ->
-  exists t p1 eb mid orig timeout es rs ed,
-    e_k e = KDrainCancelRest t /\ pre = p1 ++ eb :: mid /\
-    e_k eb = KDrainBegin t orig timeout /\ goid (e_by eb) = goid (e_by e) /\
-    In es mid /\ e_k es = KDrainSnapshot t rs /\ goid (e_by es) = goid (e_by e) /\ In r (map fst rs) /\
-    In ed mid /\ e_k ed = KDrainDeadline t /\ goid (e_by ed) = goid (e_by e) /\
-    (e_t eb + timeout <= e_t ed)%N /\ (e_t ed <= e_t e)%N /\ open_in pre t r.
+  cut_at_deadline pre e r \/ cut_as_upgraded pre e s1 r.
 Proof. exact c03_grace_lem. Qed.
 Print Assumptions c03_grace.
+
+(** Upgraded connections are closed as soon as draining begins: at every accepted snapshot
+    the flag of an entry says exactly "the target answered 101"; every flagged entry has phase
+    [PReplied t 101] and is cancelled in the resulting state; and, when the snapshot lists no
+    request twice, every request in flight on t with phase [PReplied t 101] is a flagged entry
+    and is cancelled in the resulting state.  (NoDup is needed as for
+    [c03_snapshot_is_inflight_partial]: [c03_upgraded_cut_dup_refuted].) *)
+Theorem c03_upgraded_cut_when_draining_begins_partial : forall pre e post s t rs,
+  run step init (pre ++ e :: post) = Some s -> e_k e = KDrainSnapshot t rs ->
+  exists s1 s2 x, run step init pre = Some s1 /\ step s1 e = Some s2 /\ nget (targets s1) t = Some x /\
+    (forall r h, In (r, h) rs -> (h = true <-> exists t', phase_of s1 r = Some (PReplied t' 101%N))) /\
+    (forall r, In (r, true) rs -> cancelled s2 r = true /\ phase_of s1 r = Some (PReplied t 101%N)) /\
+    (NoDup (map fst rs) -> forall r, In r (t_inflight x) -> phase_of s1 r = Some (PReplied t 101%N) ->
+       In (r, true) rs /\ cancelled s2 r = true).
+Proof. exact c03_upgraded_lem. Qed.
+Print Assumptions c03_upgraded_cut_when_draining_begins_partial.
+
+Theorem c03_upgraded_cut_dup_refuted :
+  exists pre e t rs r s1 s2 x, run step init pre = Some s1 /\ step s1 e = Some s2 /\
+    e_k e = KDrainSnapshot t rs /\ nget (targets s1) t = Some x /\ In r (t_inflight x) /\
+    phase_of s1 r = Some (PReplied t 101%N) /\ cancelled s2 r = false.
+Proof.
+  exists ex_dup_up_pre, ex_dup_ev, 1, [(1, false); (1, false)], 3. eexists. eexists. eexists.
+  split; [vm_compute; reflexivity|]. split; [vm_compute; reflexivity|]. split; [reflexivity|].
+  split; [reflexivity|]. split; [cbn; auto|]. split; reflexivity.
+Qed.
+Print Assumptions c03_upgraded_cut_dup_refuted.
+
+(** Only upgraded connections are cut early: a request that a snapshot event cancels has phase
+    [PReplied t 101] — so, with [c03_grace], a request that is not an upgraded connection is
+    never cancelled before the mark time + drain timeout of a Drain that has it in its snapshot. *)
+Theorem c03_only_upgraded_cut_early : forall pre e post s s1 s2 r t rs,
+  run step init (pre ++ e :: post) = Some s ->
+  run step init pre = Some s1 -> step s1 e = Some s2 -> e_k e = KDrainSnapshot t rs ->
+  cancelled s1 r = false -> cancelled s2 r = true ->
+  In (r, true) rs /\ phase_of s1 r = Some (PReplied t 101%N) /\ open_in pre t r.
+Proof. exact c03_only_upgraded_lem. Qed.
+Print Assumptions c03_only_upgraded_cut_early.
+
+(** An accepted hijack event: the target of the request has answered 101. *)
+Theorem c03_hijack_after_101 : forall pre e post s r,
+  run step init (pre ++ e :: post) = Some s -> e_k e = KHijacked r ->
+  exists s1 t, run step init pre = Some s1 /\ phase_of s1 r = Some (PReplied t 101%N).
+Proof.
+  intros pre e post s r Hrun Hk. destruct (M5fullFacts.run_app step _ _ _ _ _ Hrun) as (s1 & s2 & Ha & He & _).
+  destruct (step_KHijacked _ _ _ _ He Hk) as [Hu _]. apply upgraded_phase in Hu. destruct Hu as (t & Hp). eauto.
+Qed.
+Print Assumptions c03_hijack_after_101.
 
 (** Cancelled requests get 504: "cancelled by a drain" (why = 1) is accepted only
     for a request a drain did cancel; such a request is answered 504; a request
@@ -120,6 +173,17 @@ Proof.
   - intros r status sb t Hk. eapply response_after_target; eauto.
 Qed.
 Print Assumptions c03_cancelled_gets_504.
+
+(** An upgraded connection that is cancelled (at the snapshot or later) is not answered 504:
+    its target had replied 101, and that is the status reported. *)
+Theorem c03_upgraded_responds_101 : forall pre e post s r status sb t,
+  run step init (pre ++ e :: post) = Some s -> e_k e = KRespond r status sb ->
+  In (KTargetReplied t r 101%N) (req_path r pre) -> status = 101%N.
+Proof.
+  intros pre e post s r status sb t Hrun Hk Hin.
+  destruct (response_after_target _ _ _ _ _ _ _ t Hrun Hk) as [_ H]. auto.
+Qed.
+Print Assumptions c03_upgraded_responds_101.
 
 (** D11 (observation): a Drain call that finds the target already draining opens
     no drain and changes nothing — it returns at once, while the first Drain may still be waiting. *)
@@ -180,3 +244,27 @@ Proof. eexists. eexists. eexists. split; [vm_compute; reflexivity|]. repeat spli
 Example ex_early_not_cancelled :
   exists s, run step init ex_early = Some s /\ cancelled s 1 = false.
 Proof. eexists. split; [vm_compute; reflexivity|reflexivity]. Qed.
+
+(** an upgraded connection and a plain hanging request on t1, Drain with timeout 3 s:
+    the upgraded one is cancelled at the snapshot, the plain one at the deadline *)
+Example ex_upgrade_accepted : accepted ex_upgrade = true.
+Proof. vm_compute. reflexivity. Qed.
+
+Example ex_upgrade_cut_at_snapshot :
+  exists s1 s2,
+    run step init ex_upgrade_pre = Some s1 /\ step s1 ex_upgrade_snap = Some s2 /\
+    phase_of s1 1 = Some (PReplied 1 101%N) /\ cancelled s1 1 = false /\ cancelled s2 1 = true /\
+    phase_of s1 3 = Some (PAtTarget 1) /\ cancelled s2 3 = false.
+Proof. eexists. eexists. split; [vm_compute; reflexivity|]. split; [vm_compute; reflexivity|]. repeat split; reflexivity. Qed.
+
+Example ex_upgrade_plain_cut_at_deadline :
+  exists s1 s2,
+    run step init (ex_upgrade_pre ++ ex_upgrade_snap :: ex_upgrade_mid) = Some s1 /\
+    step s1 ex_upgrade_rest = Some s2 /\
+    cancelled s1 3 = false /\ cancelled s2 3 = true /\ clock s2 = (40 + 3000000000)%N.
+Proof. eexists. eexists. split; [vm_compute; reflexivity|]. split; [vm_compute; reflexivity|]. repeat split; reflexivity. Qed.
+
+(** the upgraded request is answered 101, the plain one 504 *)
+Example ex_upgrade_statuses :
+  In (KRespond 1 101%N (bs "b")) (map e_k ex_upgrade) /\ In (KRespond 3 504%N (bs "b")) (map e_k ex_upgrade).
+Proof. split; vm_compute; auto 100. Qed.
